@@ -48,10 +48,10 @@ ALT = {
 SKIP_PARAMS = {"var_name"}       # naming only; never read by __call__
 
 
-def read_set(ip, cls):
+def read_set(ip, cls, roots=("__call__", "max", "min")):
   """Attributes read (self.X loads) by __call__/max/min/range and everything they reach through self."""
   seen, attrs = set(), set()
-  work = ["__call__", "max", "min"]
+  work = list(roots)
 
   def find(name):
     v, owner = cls.lookup(name)
